@@ -146,6 +146,7 @@ type shape struct {
 	val     string // validity encoding variant
 	exts    []pki.Ext
 	leaf    *pki.Cert
+	lax     bool // the serial number is encoded with a superfluous leading zero octet: only the lenient parser accepts the certificate. The log may refuse it; if it answers 200, every clause holds for the bytes as submitted
 	alone   bool // the submission is a trusted root certificate on its own: a validated path of length one
 }
 
@@ -162,6 +163,9 @@ func (s *shape) extLabels() string {
 func (s *shape) label() string {
 	if s.alone {
 		return fmt.Sprintf("#%d the root certificate of [%s] submitted on its own", s.id, s.h.label())
+	}
+	if s.lax {
+		return fmt.Sprintf("#%d %s %s leafkey=%s exts=%s validity=%s serial-with-superfluous-leading-zero", s.id, s.kind, s.h.label(), leafKeys[s.leafKey], s.extLabels(), s.val)
 	}
 	return fmt.Sprintf("#%d %s %s leafkey=%s exts=%s validity=%s", s.id, s.kind, s.h.label(), leafKeys[s.leafKey], s.extLabels(), s.val)
 }
@@ -235,7 +239,12 @@ func (s *shape) build() {
 	if s.id%2 == 1 {
 		ser[0] = 0x81
 	}
-	t := pki.Tmpl{Serial: ser, Issuer: issuer.T.Subject, Subject: pki.CN(cn), NotBefore: pki.T0, NotAfter: leafNA, Key: pki.LoadKey(leafKeys[s.leafKey]), Exts: exts}
+	var serContent []byte
+	if s.lax {
+		serContent = append([]byte{0x00}, ser...)
+		serContent[1] &= 0x7f // 00 followed by an octet below 0x80: not minimal
+	}
+	t := pki.Tmpl{Serial: ser, SerialContent: serContent, Issuer: issuer.T.Subject, Subject: pki.CN(cn), NotBefore: pki.T0, NotAfter: leafNA, Key: pki.LoadKey(leafKeys[s.leafKey]), Exts: exts}
 	switch s.val {
 	case "generalized-2050":
 		t.NotAfter = leafNAg
@@ -508,6 +517,19 @@ func newWorld() *world {
 				add(kPrePI, h, (ik+1)%4, layout{true, 1, 0, 2}, "utc")
 				add(kPrePI, h, (ik+3)%4, layout{false, 0, 0, 0}, "utc")
 			}
+		}
+	}
+	// certificates and precertificates that only the lenient parser accepts (non-minimal serial number)
+	for ik := 0; ik < 4; ik++ {
+		for _, sp := range []struct {
+			kind string
+			h    *hier
+			l    layout
+		}{{kCert, w.hier(1, ik, false, false), layout{true, 1, 0, -1}}, {kPreDirect, w.hier(1, ik, false, false), layout{true, 1, 0, 2}},
+			{kPreDirect, w.hier(2, ik, false, false), layout{false, 0, 0, 0}}, {kPrePI, w.hier(2, ik, true, true), layout{true, 2, 0, 1}}} {
+			s := &shape{id: len(w.shapes), kind: sp.kind, h: sp.h, leafKey: (ik + 1) % 4, leafAKI: sp.l.aki, m: sp.l.m, akiPos: sp.l.akiPos, poison: sp.l.poison, val: "utc", lax: true}
+			s.build()
+			w.shapes = append(w.shapes, s)
 		}
 	}
 	// a trusted root submitted on its own: the validated path has length one, the chain part of the extra data is empty
